@@ -247,6 +247,16 @@ class Model(object):
                 if self.conn['H']:
                     self.conn['hold_at'] = self.now + self.conn['H']
             return [Alt([], False, 0, ap, 'update')]
+        if kind == 'UPDH':
+            # a well-framed UPDATE (>= 23 octets) with a hostile body: it is an UPDATE that arrived (hold timer restarts, C03)
+            # unless the agent treats it as an UPDATE message error and ends the session (RFC 4271 6.3)
+            if s in (OPENSENT, OPENCONFIRM):
+                return [self._err(5, ANY)]
+
+            def ap():
+                if self.conn['H']:
+                    self.conn['hold_at'] = self.now + self.conn['H']
+            return [Alt([], False, 0, ap, 'update'), self._err(3, ANY)]
         if kind == 'NOTI':
             alts = [Alt([], True, 0, self._go_idle, 'notification')]
             if s == OPENSENT:
